@@ -50,6 +50,7 @@ class TS(object):
     self.timed_out = False
     self.pending_exc = None
     self.pending_call = None
+    self.wait_dur = None
     self.steps = 0
 
 
@@ -72,6 +73,9 @@ class Sched(object):
     self.counter = collections.Counter()
     self.failed = None
     self.events = []
+    # adversarial timers: (rng, probability, max duration): a SHORT timed wait (a polling interval) may expire although
+    # other threads are runnable - in real time a poll can fire while another thread is active
+    self.early_timers = None
 
   def me(self):
     return getattr(self.tls, 'ts', None)
@@ -103,6 +107,17 @@ class Sched(object):
       t.timed_out = True
       t.wake = None
       t.deadline = None
+    if self.early_timers is not None:
+      rng, prob, maxdur = self.early_timers
+      cands = [t for t in self.threads if t.started and not t.finished and t.deadline is not None and
+               t.wait_dur is not None and t.wait_dur <= maxdur and t not in r]
+      if cands and rng.random() < prob:
+        t = cands[rng.randrange(len(cands))]
+        self.now = max(self.now, t.deadline)
+        t.timed_out = True
+        t.wake = None
+        t.deadline = None
+        r = self._runnable()
     self.step += 1
     if self.step > self.max_steps:
       self.failed = SchedulerStuck('more than %d scheduling steps' % self.max_steps)
@@ -166,6 +181,7 @@ class Sched(object):
       me.wake = wake
       me.timed_out = False
       me.deadline = deadline
+      me.wait_dur = timeout
       self.trace.append((me.name, ('block', what)))
       try:
         self._switch(me)
@@ -692,10 +708,11 @@ def install_adb():
   _patch(timeouts, 'time', vt)
 
 
-def run(choose, body, max_steps=200000, names=None, watchdog_s=30.0):
+def run(choose, body, max_steps=200000, names=None, watchdog_s=30.0, early_timers=None):
   """Runs body() under a fresh scheduler on the calling thread. Returns (result, sched)."""
   global SCHED
   s = Sched(choose, max_steps=max_steps, names=names)
+  s.early_timers = early_timers
   SCHED = s
   box = {}
   try:
